@@ -47,7 +47,8 @@ ErrBs(b, lastNode, lastBs) ==
 (***************************************************************************)
 (* One branch: the set of results [k : "next" | "take" | "err", ...].      *)
 (***************************************************************************)
-TryBranch(b, bs, against, perm) ==
+\* dead: the context has ended (the action timed out): a guard run under it may be interrupted, too
+TryBranch(b, bs, against, perm, dead) ==
   LET cands == IF b.pat = NoPat THEN {bs} ELSE M(b.pat, against, bs)
       bad   == IF b.pat = NoPat THEN FALSE ELSE ~InFragment(b.pat)
       mErr  == IF bad THEN {[k |-> "err", cls |-> "matcherr"]} ELSE {}
@@ -63,13 +64,14 @@ TryBranch(b, bs, against, perm) ==
             takes   == {[k |-> "take", bs |-> kept(c), target |-> Target(b.target, kept(c))]
                         : c \in {d \in cands : res(d).oc = "ok"}}
             errs    == {[k |-> "err", cls |-> res(c).cls] : c \in {d \in cands : res(d).oc = "fail"}}
-        IN IF takes = {} /\ errs = {} THEN {[k |-> "next"]} ELSE takes \cup errs)
+            late    == IF dead THEN {[k |-> "err", cls |-> "timeout"]} ELSE {}
+        IN (IF takes = {} /\ errs = {} THEN {[k |-> "next"]} ELSE takes \cup errs) \cup late)
 
-RECURSIVE Consider(_, _, _, _)
-Consider(brs, bs, against, perm) ==
+RECURSIVE Consider(_, _, _, _, _)
+Consider(brs, bs, against, perm, dead) ==
   IF brs = <<>> THEN {[k |-> "none"]}
-  ELSE UNION { IF r.k = "next" THEN Consider(Tail(brs), bs, against, perm) ELSE {r}
-               : r \in TryBranch(Head(brs), bs, against, perm) }
+  ELSE UNION { IF r.k = "next" THEN Consider(Tail(brs), bs, against, perm, dead) ELSE {r}
+               : r \in TryBranch(Head(brs), bs, against, perm, dead) }
 
 (***************************************************************************)
 (* C04.  The set of allowed results of Step(spec, st, pending).            *)
@@ -103,7 +105,7 @@ StepOutcomes(spec, st, pending, perm) ==
         nomsg    == pending = NoMsg
         consumed == IF msgBr /\ ~nomsg THEN pending ELSE NONE
         results  == IF noBr \/ (msgBr /\ nomsg) THEN {[k |-> "none"]}
-                    ELSE Consider(node.branches, bs1, IF msgBr THEN pending ELSE Obj(bs1), perm)
+                    ELSE Consider(node.branches, bs1, IF msgBr THEN pending ELSE Obj(bs1), perm, failed /\ a.cls = "timeout")
         \* "the bindings at that point": the given bindings; after a failed action
         \* the bindings extended with the error are admitted as well
         lasts    == IF failed THEN {bs0, bs1} ELSE {bs0}
